@@ -3,11 +3,21 @@
 // Contracts for the gowp verifier (/verif): comment-only file, compiled only with -tags verif.
 package config
 
+// Property C11/C16: the configured server list is only read (the permutation works on a copy), the result has the
+// keys 1..len(ks0), every value comes from the list and every list element is returned.
 //@ func config.randServOrder(ks0) (kdcs)
 //@   pure
 //@   requires len(ks0) >= 1
 //@   ensures kdcs != nil
-//@   loop 1 invariant (l == len(ks) || l == 0) && l >= 0 && fresh(ks) && ref(ks) != 0
+//@   ensures forall k int :: present(kdcs, k) <==> 1 <= k && k <= len(ks0)
+//@   ensures forall k int :: 1 <= k && k <= len(ks0) ==> exists j int :: 0 <= j && j < len(ks0) && kdcs[k] == ks0[j]
+//@   ensures forall j int :: 0 <= j && j < len(ks0) ==> exists k int :: 1 <= k && k <= len(ks0) && kdcs[k] == ks0[j]
+//@   loop 1 invariant (l == len(ks) || l == 0) && l >= 0 && fresh(ks) && ref(ks) != 0 && fresh(kdcs)
+//@   loop 1 invariant i >= 1 && (l > 0 ==> i + l == len(ks0) + 1) && (l == 0 ==> i == len(ks0) + 1) && len(ks) <= len(ks0)
+//@   loop 1 invariant forall k int :: present(kdcs, k) <==> 1 <= k && k < i
+//@   loop 1 invariant forall k int :: 1 <= k && k < i ==> exists j int :: 0 <= j && j < len(ks0) && kdcs[k] == ks0[j]
+//@   loop 1 invariant forall m int :: 0 <= m && m < len(ks) ==> exists j int :: 0 <= j && j < len(ks0) && ks[m] == ks0[j]
+//@   loop 1 invariant forall j int :: 0 <= j && j < len(ks0) ==> (exists k int :: 1 <= k && k < i && kdcs[k] == ks0[j]) || (l > 0 && exists m int :: 0 <= m && m < l && ks[m] == ks0[j])
 //@   loop 1 decreases l
 
 //@ func config.parseDuration(s) (d, err)
@@ -21,3 +31,13 @@ package config
 //@ assume_obligation config.NewFromScanner#slice:realms, err := parseRealms(lines[start:end]) :: section offsets recorded by the scanner loop are ordered positions in lines (text scanning not modelled)
 //@ assume_obligation config.NewFromScanner#slice:err := c.DomainRealm.parseLines(lines[start:end]) :: section offsets recorded by the scanner loop are ordered positions in lines (text scanning not modelled)
 //@ assume_obligation config.NewFromScanner#term:loop1 :: bufio.Scanner.Scan terminates on a finite input (external iterator)
+
+// KDC / kpasswd look-up only reads the configuration (property C11).
+//@ func (*config.Config).GetKDCs(c, realm, tcp) (count, kdcs, err)
+//@   pure
+//@ func (*config.Config).GetKpasswdServers(c, realm, tcp) (count, kps, err)
+//@   pure
+// With no kpasswd_server configured the admin servers are appended to the (empty) KPasswdServer slice: that writes
+// into configuration memory only if the empty slice had spare capacity, which the parser never produces (it leaves
+// the field nil); slice capacities of parsed configurations are not under contract.
+//@ assume_obligation (*config.Config).GetKpasswdServers#frame:loop3.A.string :: an empty KPasswdServer slice has no spare capacity (the parser leaves it nil)
